@@ -104,6 +104,17 @@ fn observe<S: Store>(case: &Value) -> Value {
             Ok(Err(e)) => json!({"r": "err", "msgk": first_line(&e)}),
             Err(m) => json!({"r": "panic", "msgk": m}),
         };
+        // iteration over a part of the list: extents (start, end) select the items from start up to, not including, end
+        let mut parts = vec![];
+        for (a, b) in [(0, n), (1, n), (0, n - 1), (1, 1), (2, 1), (-1, 1), (0, n + 3), (n, n + 1), (1, 2)] {
+            let r = guarded(|| d.get_list_item_iter(l, garnish_lang::Extents::new(SimpleNumber::Integer(a), SimpleNumber::Integer(b))).map(|it| it.collect::<Vec<usize>>()));
+            parts.push(match r {
+                Ok(Ok(v)) => json!({"a": a, "b": b, "r": "ok", "v": v.iter().map(|x| show(&d, *x, 0)).collect::<Vec<_>>()}),
+                Ok(Err(e)) => json!({"a": a, "b": b, "r": "err", "msgk": first_line(&e)}),
+                Err(m) => json!({"a": a, "b": b, "r": "panic", "msgk": m}),
+            });
+        }
+        o["parts"] = json!(parts);
         let mut look = vec![];
         for s in &syms {
             let sv = sym_of_name(s);
